@@ -571,7 +571,9 @@ pub fn valid_programs(pairs: bool, mut f: impl FnMut(&Program, &str) -> bool) {
     if pairs {
         for i in 0..feats.len() {
             for j in 0..feats.len() {
-                if i != j && !(feats[i].0.starts_with("conversions") && feats[j].0.starts_with("conversions")) {
+                // (the two table groups are large and interact with nothing: singles only)
+                let table = |k: usize| feats[k].0 == "operand-conversions" || feats[k].0 == "result-conversions";
+                if i != j && !table(i) && !table(j) && !(feats[i].0.starts_with("conversions") && feats[j].0.starts_with("conversions")) {
                     combos.push(vec![i, j]);
                 }
             }
